@@ -94,6 +94,31 @@ theorem rawOn_generic (src tgt : Bytes) (name : Bytes) (rest : List Bytes)
     | nil => rw [hr] at hlen; simp at hlen
     | cons k r => exact hk k r
 
+/-- `XGROUP <CREATE|SETID|DESTROY|CREATECONSUMER|DELCONSUMER> key …`: the key is
+    the SECOND argument (extractor `xgroup`); rewriting it leaves the position -/
+theorem rawOn_xgroup (src tgt name sub : Bytes) (rest : List Bytes)
+    (h1 : Gen.commandKeyExtractors.lookup (lower (lower name)) = some .xgroup)
+    (hsub : (lower sub == Filter.wCreate || lower sub == Filter.wSetid || lower sub == Filter.wDestroy ||
+      lower sub == Filter.wCreateconsumer || lower sub == Filter.wDelconsumer) = true) :
+    RawOn src tgt ⟨name, sub :: src :: rest⟩ := by
+  have hk : ∀ k r, Filter.keyIndexes (lower name) (sub :: k :: r) = some [1] := by
+    intro k r
+    unfold Filter.keyIndexes
+    simp only [List.isEmpty_cons, Bool.false_eq_true, ↓reduceIte, h1, Filter.runExtractor, Filter.xgroupIdx, hsub]
+  refine ⟨[1], hk _ _, ?_, ?_⟩
+  · intro i hi
+    have : i = 1 := by simpa using hi
+    rw [this]; rfl
+  · have hshape : ∃ k r, rewriteRdbKeys (lower name) (sub :: src :: rest) src tgt = sub :: k :: r := by
+      unfold rewriteRdbKeys
+      split
+      · exact ⟨src, rest, rfl⟩
+      · rw [hk]
+        simp only [List.mapIdx_cons]
+        exact ⟨_, _, by simp; exact ⟨rfl, rfl⟩⟩
+    obtain ⟨k, r, hr⟩ := hshape
+    rw [hr]; exact hk k r
+
 theorem onKey_del (tgt : Bytes) : OnKey tgt ⟨rDel, [tgt]⟩ := by
   refine ⟨[tgt], ?_, by simp, by simp⟩
   unfold commandKeys
